@@ -56,6 +56,15 @@ class W_RespMut(Module):
         return dy
 
 
+class W_Overwrite(Module):
+    def _response(self, x):
+        return x * 3
+
+    def _sensitivity(self, dy):
+        self.sig_in[0].sensitivity = 3 * dy   # R-ACCUMULATE: overwrite instead of add_sensitivity
+        return None
+
+
 class W_Solver(LinearSolver):
     def update(self, A):
         self.A = A
